@@ -2098,7 +2098,13 @@ func (p *Parser) evaluateUnaryOperation(ctx context) (Expression, error) {
 		}
 	}
 	valueToken := p.peek()
-	expr, err := p.evaluateSingleExpression(ctx)
+	operandEvaluation := p.evaluateSingleExpression
+
+	// The operand of a unary operator may itself be a unary operation (e.g. !!b).
+	if negate {
+		operandEvaluation = p.evaluateUnaryOperation
+	}
+	expr, err := operandEvaluation(ctx)
 
 	if err != nil {
 		return nil, err
